@@ -109,11 +109,15 @@ Leak(k, e) ==
             \o (IF e.leaked # 0 /\ ~e.cycle THEN <<V(k, "C14", <<"heap not released, no reference cycle", e.leaked>>)>> ELSE <<>>)
             \o (IF e.leaked = 0 /\ e.cycle THEN <<D(k, "cycle", "reference cycle observed but no leak measured")>> ELSE <<>>)
             \o (IF e.shared # 0 THEN <<D(k, "shared-cell", "two stack slots hold the same cell (Heap!Unshared does not hold on this run)")>> ELSE <<>>)
+            \* bounded memory under reuse: after reset() a generator holds a fixed set of containers (one allocation each,
+            \* whatever their capacity); a count that keeps growing with the number of pickles generated is a leak
+            \o (IF e.growth > 8 THEN <<V(k, "C14", <<"live allocations after reset() keep growing with the number of generations on one generator", e.growth>>)>> ELSE <<>>)
     /\ UNCHANGED <<fresh, digests, covered, ops>>
 
 (* ---- C13: the front end produces the library's bytes for the configuration that
    its options denote according to the Frontend specification ---- *)
 Front(k, e) ==
+    /\ ops' = IF "gotb" \in DOMAIN e THEN OpsFrom(e.gotb, 1, {}) ELSE {}
     /\ msgs' = (IF e.kind = "cli" /\ e.libcfg # CliConfig(e.opts)
                 THEN <<D(k, "frontend-map", <<"driver's option mapping differs from Frontend!CliConfig", CliConfig(e.opts)>>)>> ELSE <<>>)
             \o (IF e.kind = "py" /\ e.libcfg # PyConfig(e.calls)
@@ -121,7 +125,12 @@ Front(k, e) ==
             \o (IF e.exit # e.want_exit THEN <<V(k, "C13", <<"exit status", e.exit, "expected", e.want_exit, e.what>>)>> ELSE <<>>)
             \o (IF e.files # e.want_files THEN <<V(k, "C13", <<"files written differ from 0.pkl..N-1.pkl", e.what>>)>> ELSE <<>>)
             \o (IF e.got # e.lib THEN <<V(k, "C13", <<"front-end bytes differ from library bytes", e.what>>)>> ELSE <<>>)
-    /\ UNCHANGED <<fresh, digests, covered, ops>>
+            \* C10 at the front ends: the opcodes of the bytes the front end wrote, against the flags its options denote
+            \o (IF ops' \cap ExtOps # {} /\ e.libcfg.ext = 0
+                THEN <<V(k, "C10", <<"EXT opcode in front-end output although the options do not enable it", e.what>>)>> ELSE <<>>)
+            \o (IF ops' \cap BufOps # {} /\ e.libcfg.buf = 0
+                THEN <<V(k, "C10", <<"buffer opcode in front-end output although the options do not enable it", e.what>>)>> ELSE <<>>)
+    /\ UNCHANGED <<fresh, digests, covered>>
 
 Step ==
     /\ i < N
